@@ -91,9 +91,21 @@ def _mk_hy(periodic):
         e = regs[0].contours[2].d
         env.claim_eq("hy.xlow*dy", hy0.xlow[1, 0] * dy, e[2] - e[0])
         env.claim_eq("hy.corners*dy(interior)", hy0.corners[1, 1] * dy, e[3] - e[1])
-        for loc in ("centre", "ylow", "xlow", "corners"):
-            for v in getattr(hy0, loc).flat:
-                env.claim("hy>0@" + loc, v > 0)
+        # the same at the x-face positions, both x-faces of the cell (even contours 0 and 2), across joins and at boundaries
+        for ix in (0, 1):
+            e, en = regs[0].contours[2 * ix].d, regs[1].contours[2 * ix].d
+            env.claim_eq("hy.corners*dy_across_join", hy0.corners[ix, 2] * dy, (e[4] - e[3]) + (en[1] - en[0]))
+            env.claim_eq("hy.corners*dy_across_join(seen_from_upper_region)", hy1.corners[ix, 0] * dy, (en[1] - en[0]) + (e[4] - e[3]))
+            if periodic:
+                env.claim_eq("hy.corners*dy_across_periodic_join", hy0.corners[ix, 0] * dy, (e[1] - e[0]) + (en[4] - en[3]))
+                env.claim_eq("hy.corners*dy_across_periodic_join(seen_from_lower_region)", hy1.corners[ix, 2] * dy, (en[4] - en[3]) + (e[1] - e[0]))
+            else:
+                env.claim_eq("hy.corners*dy_at_lower_boundary=2*half_cell", hy0.corners[ix, 0] * dy, 2 * (e[1] - e[0]))
+                env.claim_eq("hy.corners*dy_at_upper_boundary=2*half_cell", hy1.corners[ix, 2] * dy, 2 * (en[4] - en[3]))
+        for hy in (hy0, hy1):
+            for loc in ("centre", "ylow", "xlow", "corners"):
+                for v in getattr(hy, loc).flat:
+                    env.claim("hy>0@" + loc, v > 0)
     return body
 
 
